@@ -53,6 +53,25 @@ type Observed struct {
 	Panic     string  `json:"panic,omitempty"`
 	// EndedEarly: Run returned although the context had not been cancelled
 	EndedEarly bool `json:"ended_early,omitempty"`
+	// RunErrClass: none | provider (a scripted / node error came back wrapped) | mismatch | db | other
+	RunErrClass string `json:"run_err_class,omitempty"`
+	// Writes: every write the CLIENT made into the key-value store, in order (the harness reads and
+	// writes through the raw database); Mark = index of the provider call it came after
+	Writes []WriteRec `json:"writes,omitempty"`
+	// AccessorProblems: Blockchain.L1Head() (the accessor RPC and the client's guard use) disagreed
+	// with the record under the L1Height key
+	AccessorProblems []string `json:"accessor_problems,omitempty"`
+	FinalAccessor    *HeadJ   `json:"final_accessor,omitempty"`
+	FinalAccessorErr string   `json:"final_accessor_err,omitempty"`
+	// Verified: isL1Verified (rpc helpers.go, copied literally) on what Blockchain.L1Head() returns at
+	// the end, for n = 0, head.l2, head.l2+1
+	Verified [3]bool `json:"verified"`
+	// MaxChanFill: the fullest the client's update channel (capacity 128) has been seen
+	MaxChanFill int `json:"max_chan_fill,omitempty"`
+	// HoldFill: how many values sat in the client's update channel at the end of a `hold` (-1: no hold)
+	HoldFill int `json:"hold_fill"`
+	// NoOptions: the client was built by l1.NewClient(provider, chain, logger) with no option
+	NoOptions bool `json:"no_options,omitempty"`
 	// FeedSlow: a subscriber that takes a value every now and then; FeedIdle: one that only looks
 	// at its slot when everything is over
 	DBFaultFired bool    `json:"db_fault_fired,omitempty"`
@@ -70,9 +89,18 @@ type Observed struct {
 
 // faultyKV wraps the memory database: the client's reads / writes of the stored L1 head can be
 // made to fail (the harness itself reads and writes through the raw database).
+type WriteRec struct {
+	Mark int    `json:"mark"`
+	Head *HeadJ `json:"head,omitempty"` // value written under L1Height (nil: not decodable / a delete)
+	Key  string `json:"key,omitempty"`  // any other key (hex)
+	Del  bool   `json:"del,omitempty"`
+}
+
 type faultyKV struct {
 	db.KeyValueStore
 	mu         sync.Mutex
+	bypass     bool // the harness itself is reading through the Blockchain accessor
+	onWrite    func(WriteRec)
 	kind       string
 	at         int
 	reads, wrs int
@@ -84,7 +112,7 @@ type faultyKV struct {
 var errDB = errors.New("scripted database failure")
 
 func (k *faultyKV) Get(key []byte, cb func([]byte) error) error {
-	if bytes.Equal(key, db.L1Height.Key()) {
+	if bytes.Equal(key, db.L1Height.Key()) && !k.isBypass() {
 		k.mu.Lock()
 		k.reads++
 		fail := k.kind == "r" && k.reads == k.at
@@ -102,7 +130,40 @@ func (k *faultyKV) Get(key []byte, cb func([]byte) error) error {
 	return k.KeyValueStore.Get(key, cb)
 }
 
+func (k *faultyKV) isBypass() bool {
+	k.mu.Lock()
+	defer k.mu.Unlock()
+	return k.bypass
+}
+
+func (k *faultyKV) setBypass(b bool) {
+	k.mu.Lock()
+	k.bypass = b
+	k.mu.Unlock()
+}
+
+func (k *faultyKV) Delete(key []byte) error {
+	if k.onWrite != nil {
+		if bytes.Equal(key, db.L1Height.Key()) {
+			k.onWrite(WriteRec{Del: true})
+		} else {
+			k.onWrite(WriteRec{Del: true, Key: fmt.Sprintf("%x", key)})
+		}
+	}
+	return k.KeyValueStore.Delete(key)
+}
+
+func (k *faultyKV) DeleteRange(start, end []byte) error {
+	if k.onWrite != nil {
+		k.onWrite(WriteRec{Del: true, Key: fmt.Sprintf("range %x-%x", start, end)})
+	}
+	return k.KeyValueStore.DeleteRange(start, end)
+}
+
 func (k *faultyKV) Put(key, value []byte) error {
+	if !bytes.Equal(key, db.L1Height.Key()) && k.onWrite != nil {
+		k.onWrite(WriteRec{Key: fmt.Sprintf("%x", key)})
+	}
 	if bytes.Equal(key, db.L1Height.Key()) {
 		k.mu.Lock()
 		k.wrs++
@@ -122,6 +183,14 @@ func (k *faultyKV) Put(key, value []byte) error {
 			}
 			return errDB
 		}
+		if k.onWrite != nil {
+			rec := WriteRec{}
+			var h core.L1Head
+			if err := encoder.Unmarshal(value, &h); err == nil {
+				rec.Head = headJ(&h)
+			}
+			k.onWrite(rec)
+		}
 	}
 	return k.KeyValueStore.Put(key, value)
 }
@@ -140,12 +209,31 @@ func (s *scriptedSub) Unsubscribe()      { s.once.Do(func() { close(s.quit) }) }
 
 var errScripted = errors.New("scripted failure")
 
+// errTimeout is what a provider call returns when its context deadline (30 s / 60 s in juno) expires:
+// the client takes a different branch for it (errors.Is(err, context.DeadlineExceeded)) and returns
+// an error that does not wrap the cause. Returned at once — no time passes.
+var errTimeout = fmt.Errorf("scripted timeout: %w", context.DeadlineExceeded)
+
+// fail: the error of a scripted failure of this case.
+func (p *provider) fail() error {
+	if p.c.TimeoutErrors {
+		return errTimeout
+	}
+	return errScripted
+}
+
 type provider struct {
 	mu    sync.Mutex
 	cond  *sync.Cond
 	c     *Case
 	chain *blockchain.Blockchain
 	raw   db.KeyValueStore
+	kv    *faultyKV
+
+	writes    []WriteRec
+	accessorP []string
+	maxFill   int
+	holdFill  int
 
 	marks       []Mark
 	events      []Log
@@ -267,6 +355,9 @@ func (p *provider) pump(mid chan *l1.StateUpdate, out chan<- *l1.StateUpdate, qu
 			case out <- su:
 				p.sent++
 				p.events = append(p.events, fromSU(su))
+				if n := len(out); n > p.maxFill {
+					p.maxFill = n
+				}
 				p.mu.Unlock()
 			default:
 				p.mu.Unlock()
@@ -300,6 +391,34 @@ func (p *provider) storedHead() *HeadJ {
 	return headJ(&h)
 }
 
+// accessorHead reads the stored head the way RPC handlers and the client's guard do: through
+// Blockchain.L1Head(). The scripted database faults do not apply to the harness's own reads.
+func (p *provider) accessorHead() (*HeadJ, error) {
+	if p.kv != nil {
+		p.kv.setBypass(true)
+		defer p.kv.setBypass(false)
+	}
+	h, err := p.chain.L1Head()
+	if err != nil {
+		return nil, err
+	}
+	return headJ(&h), nil
+}
+
+// checkAccessor (p.mu held): Blockchain.L1Head() must return the record under the L1Height key, and
+// "key not found" exactly when there is none.
+func (p *provider) checkAccessor(raw *HeadJ, where string) {
+	acc, err := p.accessorHead()
+	switch {
+	case err != nil && !errors.Is(err, db.ErrKeyNotFound):
+		p.accessorP = append(p.accessorP, fmt.Sprintf("%s: Blockchain.L1Head() failed: %v", where, err))
+	case err != nil && raw != nil:
+		p.accessorP = append(p.accessorP, fmt.Sprintf("%s: Blockchain.L1Head() says key not found; the database holds %s", where, raw))
+	case err == nil && !headEq(acc, raw):
+		p.accessorP = append(p.accessorP, fmt.Sprintf("%s: Blockchain.L1Head() = %s; the database holds %s", where, acc, raw))
+	}
+}
+
 // mark must be called with p.mu held, at the very start of a provider call.
 func (p *provider) mark(m Mark) {
 	m.Consumed = p.sent
@@ -308,6 +427,7 @@ func (p *provider) mark(m Mark) {
 	}
 	m.PreWatch = !p.watched
 	m.HeadBefore = p.storedHead()
+	p.checkAccessor(m.HeadBefore, "at provider call "+m.Kind)
 	m.NotesBefore = len(p.notes)
 	p.marks = append(p.marks, m)
 	p.cond.Broadcast()
@@ -324,7 +444,7 @@ func (p *provider) ChainID(ctx context.Context) (*big.Int, error) {
 	if p.chainIDFails > 0 {
 		p.chainIDFails--
 		p.mark(Mark{Kind: "chainidfail"})
-		return nil, errScripted
+		return nil, p.fail()
 	}
 	p.mark(Mark{Kind: "chainid"})
 	if p.c.ChainIDMismatch {
@@ -348,7 +468,7 @@ func (p *provider) LatestHeight(ctx context.Context) (uint64, error) {
 	}
 	if p.c.LatestFail {
 		p.mark(Mark{Kind: "latestfail"})
-		return 0, errScripted
+		return 0, p.fail()
 	}
 	p.latestOK = true
 	p.mark(Mark{Kind: "latest"})
@@ -391,7 +511,7 @@ func (p *provider) FinalisedHeight(ctx context.Context) (uint64, error) {
 		p.fin1Done = true
 		if p.c.Fin1Fail {
 			p.mark(Mark{Kind: "fin1fail"})
-			return 0, errScripted
+			return 0, p.fail()
 		}
 		p.mark(Mark{Kind: "fin1", Fin: p.c.Fin1})
 		return p.c.Fin1, nil
@@ -399,12 +519,12 @@ func (p *provider) FinalisedHeight(ctx context.Context) (uint64, error) {
 	if !p.watched && p.fin2Fails > 0 {
 		p.fin2Fails--
 		p.mark(Mark{Kind: "finerr"})
-		return 0, errScripted
+		return 0, p.fail()
 	}
 	if p.watched && p.finFails > 0 {
 		p.finFails--
 		p.mark(Mark{Kind: "finerr"})
-		return 0, errScripted
+		return 0, p.fail()
 	}
 	p.mark(Mark{Kind: "tick", Fin: p.cur})
 	return p.cur, nil
@@ -434,7 +554,7 @@ func (p *provider) FilterStateUpdate(ctx context.Context, from, to uint64) ([]*l
 	p.filterCalls++
 	if p.c.FilterFailAt >= 0 && n == p.c.FilterFailAt {
 		p.mark(Mark{Kind: "filterfail", From: from, To: to})
-		return nil, errScripted
+		return nil, p.fail()
 	}
 	p.mark(Mark{Kind: "filter", From: from, To: to})
 	var out []*l1.StateUpdate
@@ -472,7 +592,7 @@ func (p *provider) WatchStateUpdate(ctx context.Context, ch chan<- *l1.StateUpda
 		p.watchFails--
 		p.mark(Mark{Kind: "watchfail"})
 		p.watched = true
-		return nil, errScripted
+		return nil, p.fail()
 	}
 	p.mark(Mark{Kind: "watch"})
 	p.watched = true
@@ -504,6 +624,9 @@ func toSU(l Log) *l1.StateUpdate {
 }
 
 const barrierTimeout = 10 * time.Second
+
+// neverSucceeds: a failure count that stands for "fails until the context ends".
+const neverSucceeds = 1 << 20
 
 // stalls counts cases that did not reach a barrier; after a few of them the remaining cases are
 // skipped (a broken client would otherwise cost one timeout per case).
@@ -587,7 +710,7 @@ func runCase(c *Case) *Observed {
 			StateRoot:   new(felt.Felt).SetUint64(c.Stored.Root),
 		})
 	}
-	p := &provider{c: c, chain: chain, raw: raw, faultAtMark: -1, cur: c.Fin2, chainIDFails: c.ChainIDFails,
+	p := &provider{c: c, chain: chain, raw: raw, kv: kv, faultAtMark: -1, holdFill: -1, cur: c.Fin2, chainIDFails: c.ChainIDFails,
 		fin2Fails: c.Fin2Fails, watchFails: c.WatchFails}
 	p.cond = sync.NewCond(&p.mu)
 	if c.Geth {
@@ -614,6 +737,21 @@ func runCase(c *Case) *Observed {
 		p.feedSent = append(p.feedSent, *headJ(h))
 		p.mu.Unlock()
 	}}
+	// NewClient with NO option at all (the listener defaults to SelectiveListener{}, chunk 1000, poll
+	// interval 1 min, retry delay 10 s): possible where no timer is involved — a one-shot catch-up
+	// whose finalised-height reads succeed. Without a listener the heads handed to
+	// Blockchain.SetL1Head are taken from the database writes.
+	noOpts := c.DefaultChunk && c.Mode == "oneshot" && c.Fin2Fails == 0
+	kv.onWrite = func(w WriteRec) { // client goroutine, between two provider calls
+		p.mu.Lock()
+		w.Mark = len(p.marks) - 1
+		p.writes = append(p.writes, w)
+		if noOpts && w.Key == "" && !w.Del && w.Head != nil {
+			p.notes = append(p.notes, *w.Head)
+			p.feedSent = append(p.feedSent, *w.Head)
+		}
+		p.mu.Unlock()
+	}
 	kv.onFire = func(wrote *HeadJ) { // client goroutine, inside setL1Head, between two provider calls
 		p.mu.Lock()
 		p.faultAtMark = len(p.marks) - 1
@@ -626,11 +764,20 @@ func runCase(c *Case) *Observed {
 	if poll <= 0 {
 		poll = 200 * time.Microsecond
 	}
-	client := l1.NewClient(p, chain, log.NewNopZapLogger(),
-		l1.WithEventListener(listener),
-		l1.WithResubscribeDelay(50*time.Microsecond),
-		l1.WithPollFinalisedInterval(poll),
-		l1.WithCatchUpChunkSize(c.Chunk))
+	resub := time.Duration(c.ResubMicros) * time.Microsecond
+	if resub <= 0 {
+		resub = 50 * time.Microsecond
+	}
+	opts := []l1.Option{l1.WithEventListener(listener),
+		l1.WithResubscribeDelay(resub),
+		l1.WithPollFinalisedInterval(poll)}
+	if !c.DefaultChunk {
+		opts = append(opts, l1.WithCatchUpChunkSize(c.Chunk))
+	}
+	if noOpts {
+		opts = nil
+	}
+	client := l1.NewClient(p, chain, log.NewNopZapLogger(), opts...)
 
 	// feed observer
 	feedSub := chain.SubscribeL1Head()
@@ -661,6 +808,7 @@ func runCase(c *Case) *Observed {
 	ctx, cancel := context.WithCancel(context.Background())
 	defer cancel()
 	runDone := make(chan struct{})
+	var runErr error // read after runDone is closed
 	go func() {
 		defer close(runDone)
 		err, panicked, stack := lib.Try(func() error {
@@ -673,6 +821,7 @@ func runCase(c *Case) *Observed {
 			obs.Panic = err.Error() + "\n" + stack
 		} else if err != nil {
 			obs.RunErr = err.Error()
+			runErr = err
 		}
 		p.mu.Lock()
 		p.closed = true
@@ -688,7 +837,23 @@ func runCase(c *Case) *Observed {
 
 	if c.Mode != "oneshot" {
 		// wait for the first successful subscription (or the end of Run)
-		ok := p.waitFor(func() bool { return p.watchOK > 0 || p.closed })
+		// a case whose chain-id probe / subscription never succeeds: the context is cancelled while the
+		// client is inside the retry loop (after three failed attempts)
+		never := c.WatchFails >= neverSucceeds || c.ChainIDFails >= neverSucceeds
+		ok := p.waitFor(func() bool {
+			if never {
+				n := 0
+				for _, m := range p.marks {
+					if (m.Kind == "watchfail" && c.WatchFails >= neverSucceeds) || (m.Kind == "chainidfail" && c.ChainIDFails >= neverSucceeds) {
+						n++
+					}
+				}
+				if n >= 3 {
+					return true
+				}
+			}
+			return p.watchOK > 0 || p.closed
+		})
 		if !ok {
 			stall("no subscription and Run did not return")
 		}
@@ -715,10 +880,24 @@ func runCase(c *Case) *Observed {
 		}
 	}
 	if c.Mode != "oneshot" {
-		select {
-		case <-runDone:
-			obs.EndedEarly = true
-		default:
+		// Run closes the provider (deferred) before it returns: once that has been seen, Run IS
+		// returning although nobody cancelled — wait for it instead of racing with its last instructions
+		p.mu.Lock()
+		closed := p.closed
+		p.mu.Unlock()
+		if closed {
+			select {
+			case <-runDone:
+				obs.EndedEarly = true
+			case <-time.After(barrierTimeout):
+				stall("the provider was closed but Run did not return")
+			}
+		} else {
+			select {
+			case <-runDone:
+				obs.EndedEarly = true
+			default:
+			}
 		}
 	}
 	cancel()
@@ -752,6 +931,56 @@ func runCase(c *Case) *Observed {
 	kv.mu.Unlock()
 	obs.FilterGot = p.filterGot
 	obs.GethProblems = p.problems
+	if runErr != nil {
+		answered := false // the chain-id probe got an answer (as opposed to a failure)
+		for _, m := range p.marks {
+			if m.Kind == "chainid" {
+				answered = true
+			}
+		}
+		switch {
+		case errors.Is(runErr, errDB):
+			obs.RunErrClass = "db"
+		case errors.Is(runErr, errScripted):
+			obs.RunErrClass = "provider"
+		case c.ChainIDMismatch && answered && !errors.Is(runErr, context.Canceled) && !errors.Is(runErr, context.DeadlineExceeded):
+			// errChainIDMismatch is unexported: recognised as "an error that wraps nothing the
+			// harness injected, in a case whose node answered another chain id"
+			obs.RunErrClass = "mismatch"
+		case c.Geth, c.TimeoutErrors:
+			obs.RunErrClass = "provider" // a real go-ethereum error from the fake node / an expired call timeout
+		default:
+			obs.RunErrClass = "other"
+		}
+	}
+	obs.Writes = append([]WriteRec(nil), p.writes...)
+	obs.MaxChanFill = p.maxFill
+	obs.HoldFill = p.holdFill
+	obs.NoOptions = noOpts
+	p.checkAccessor(p.storedHead(), "after the client stopped")
+	obs.AccessorProblems = append([]string(nil), p.accessorP...)
+	if acc, err := p.accessorHead(); err != nil {
+		obs.FinalAccessorErr = err.Error()
+	} else {
+		obs.FinalAccessor = acc
+	}
+	{
+		// isL1Verified of rpc/v8,v9,v10 helpers.go, copied literally; l1Head() of the handlers returns
+		// the empty head when the key is not found
+		var l1h core.L1Head
+		p.kv.setBypass(true)
+		if h, err := chain.L1Head(); err == nil {
+			l1h = h
+		}
+		p.kv.setBypass(false)
+		isL1Verified := func(n uint64, l1 core.L1Head) bool {
+			if l1 != (core.L1Head{}) && l1.BlockNumber >= n {
+				return true
+			}
+			return false
+		}
+		obs.Verified = [3]bool{isL1Verified(0, l1h), isL1Verified(l1h.BlockNumber, l1h), l1h.BlockNumber+1 != 0 && isL1Verified(l1h.BlockNumber+1, l1h)}
+	}
 	p.mu.Unlock()
 	if p.node != nil {
 		p.node.mu.Lock()
@@ -816,6 +1045,42 @@ func execGethOp(p *provider, op Op) bool {
 		p.node.finNotFound = op.N
 		p.node.mu.Unlock()
 		return true
+	case "push":
+		p.node.emit(op.Logs, true)
+		return true
+	case "waitfinerr":
+		p.mu.Lock()
+		start := len(p.marks)
+		p.mu.Unlock()
+		return p.waitFor(func() bool {
+			if p.closed {
+				return true
+			}
+			for i := start; i < len(p.marks); i++ {
+				if p.marks[i].Kind == "finerr" {
+					return true
+				}
+			}
+			return false
+		})
+	case "waitfill":
+		want := op.N
+		if want > 128 {
+			want = 128
+		}
+		return p.waitFor(func() bool { return p.closed || (p.ch != nil && len(p.ch) >= want) })
+	case "hold":
+		// a bounded real wait of the harness; nothing is decided by it (the oracle is the same however
+		// long it lasts) — it only gives a stall timeout inside the code under test the time to fire
+		time.Sleep(time.Duration(op.N) * time.Millisecond)
+		p.mu.Lock()
+		if p.ch != nil {
+			p.holdFill = len(p.ch)
+		}
+		p.mu.Unlock()
+		return true
+	case "drainwait":
+		return p.drain()
 	case "suberr-inflight":
 		// logs (removal notices among them) are pushed and the connection is dropped while they
 		// are still on their way through go-ethereum's client and juno's forwarder
@@ -876,6 +1141,9 @@ func execOp(p *provider, op Op) bool {
 				case p.ch <- toSU(l):
 					p.sent++
 					p.events = append(p.events, l)
+					if n := len(p.ch); n > p.maxFill {
+						p.maxFill = n
+					}
 					p.mu.Unlock()
 				default:
 					p.mu.Unlock()
@@ -898,6 +1166,22 @@ func execOp(p *provider, op Op) bool {
 		p.finFails = op.N
 		p.mu.Unlock()
 		return true
+	case "waitfinerr":
+		// until the client is inside finalisedHeight's retry loop (it does not read the channel there)
+		p.mu.Lock()
+		start := len(p.marks)
+		p.mu.Unlock()
+		return p.waitFor(func() bool {
+			if p.closed {
+				return true
+			}
+			for i := start; i < len(p.marks); i++ {
+				if p.marks[i].Kind == "finerr" {
+					return true
+				}
+			}
+			return false
+		})
 	case "suberr":
 		p.mu.Lock()
 		p.watchFails = op.N
